@@ -48,7 +48,7 @@ def oracle(case, impl_line):
     if p is None:
         return None
     b, with_, without = p
-    g = case.split()[6]
+    g = case.split()[7]
     if not verdict(b):
         bad = [r for r in reqs_of(with_) if r.startswith(GUARDED)]
         if bad:
@@ -64,7 +64,7 @@ def model_line(case, impl_line):
     p = parse_impl(impl_line)
     f = case.split()
     b = p[0] if p else (False, False, False, False)
-    return "c10m %s %s %d %d %d %d %s %s %s" % (f[1], f[2], int(b[0]), int(b[1]), int(b[2]), int(b[3]), f[5], f[7], f[8])
+    return "c10m %s %s %s %d %d %d %d %s %s %s" % (f[1], f[2], f[3], int(b[0]), int(b[1]), int(b[2]), int(b[3]), f[6], f[8], f[9])
 
 
 def run_part(chk, n=None):
@@ -93,11 +93,13 @@ def run_part(chk, n=None):
         b, with_, without = p
         # the generator's idea of the patterns agrees with the real regexp (keeps the class counts honest)
         f = c.split()
-        allow, deny = int(f[3]), int(f[4])
+        allow, deny = int(f[4]), int(f[5])
         if tags != ["corpus"]:
-            want = (allow != 0, bool(allow) and W.pat_match(allow, g), deny != 0, bool(deny) and W.pat_match(deny, g))
+            want = (W.is_set(allow), W.is_set(allow) and W.pat_match(allow, g), W.is_set(deny), W.is_set(deny) and W.pat_match(deny, g))
             if want != b:
                 chk.count("wire:generator-pattern-semantics-differs-from-regexp")
+        if W.EMPTY in (allow, deny) and not W.is_set(allow) and not W.is_set(deny):
+            chk.count("wire:only-empty-string-lists")
         if (not verdict(b) and reqs_of(without)) or (verdict(b) and (allow or deny) and reqs_of(with_)):
             chk.nontrivial.add(C.case_hash(c))
         if with_ + " || " + without != m.strip():
